@@ -120,9 +120,10 @@ def tuned_cases(draw, tier):
     level = draw(st.one_of(st.sampled_from([0.1, 0.01, 0.5, 0.3, 1e-8]), st.floats(1e-6, 0.9)))
     if det == "MovingWindow":
         sc = draw(st.sampled_from([None, {"cls": "L2Cost"}, {"cls": "GaussianVarCost"}]))
-        bw = draw(st.integers(K.scorer_min_size(sc, p), 6))
-        n = draw(st.integers(2 * bw, 60))
-        params = {"change_score": sc, "bandwidth": bw, "threshold_scale": None, "level": level}
+        bw = draw(st.integers(K.scorer_min_size(sc, p), 10))
+        n = draw(st.integers(2 * bw, 70))
+        params = {"change_score": sc, "bandwidth": bw, "threshold_scale": None, "level": level,
+                  "min_detection_interval": draw(st.integers(1, int(max(1, bw / 2 - 1))))}
     elif det == "SeededBinarySegmentation":
         sc = draw(st.sampled_from([None, {"cls": "L2Cost"}, {"cls": "GaussianVarCost"}]))
         msl = draw(st.integers(K.scorer_min_size(sc, p), 4))
@@ -170,7 +171,7 @@ def check_tuned(case):
 # ------------------------------------------------------------------ (iii) MVCAPA families (grid)
 
 NS = [2, 3, 5, 10, 17, 100, 1000, 12345, 100000]
-PS = list(range(1, 13))
+PS = list(range(1, 13)) + [16, 20, 24, 26, 28, 30, 31, 32, 33, 40, 64]
 KS = [1, 2, 3, 5]
 SCALES = [0.0, 0.5, 1.0, 2.5]
 
@@ -285,7 +286,7 @@ FACETS = [
                 "non-trivial = >= 3 distinct training scores"),
           n_quick=480, n_thorough=6000, shards_quick=8, shards_thorough=16),
     Facet(name="mvcapa_families", kind="enumerate", enumerate=family_cells, check=check_family_cell, exhaustive=True,
-          rule=("grid n in {2,3,5,10,17,100,1000,12345,100000} x p in 1..12 x k in {1,2,3,5} x scale in {0,.5,1,2.5} x families "
+          rule=("grid n in {2,3,5,10,17,100,1000,12345,100000} x p in 1..12 and {16,20,24,26,28,30,31,32,33,40,64} x k in {1,2,3,5} x scale in {0,.5,1,2.5} x families "
                 "dense/sparse/intermediate/combined: shape, non-negativity, monotone cumulative penalty, proportionality, closed "
                 "forms of dense and sparse, combined == pointwise minimum (p>=2) / dense (p=1); exhaustive in both tiers"),
           shards_quick=8, shards_thorough=8, max_samples=2),
